@@ -119,6 +119,9 @@ func c01Sinks() []c01Sink {
 		{"script-nonce", "verbatim", func(s string) (templ.Component, context.Context) {
 			return tmpl.ScriptNonceSink("n"), templ.WithNonce(bg, s)
 		}},
+		{"style-element-under-nonce", "structure", func(s string) (templ.Component, context.Context) {
+			return tmpl.CSSComponentSink(tmpl.DynCSS("color", "red")), templ.WithNonce(bg, s)
+		}},
 		{"script-nonce-in-children", "verbatim", func(s string) (templ.Component, context.Context) {
 			return tmpl.ScriptNonceInChildren("n"), templ.WithNonce(bg, s)
 		}},
